@@ -66,6 +66,18 @@ func (f fault) apply(g2e, e2g *fragQueue) {
 	case "pair":
 		// the same mask on the same byte of two different labels
 		q.corrupt = map[int]byte{f.off: f.mask, f.off2: f.mask}
+	case "set16":
+		// a whole aligned 16-byte label replaced by a constant byte pattern
+		q.set = map[int]byte{}
+		for k := 0; k < 16; k++ {
+			q.set[f.off+k] = f.mask
+		}
+	case "dup16":
+		// the label at off2 (earlier in the stream) copied over the label at off
+		q.dup = map[int]int{}
+		for k := 0; k < 16; k++ {
+			q.dup[f.off+k] = f.off2 + k
+		}
 	case "burstff":
 		// constant-mask burst spanning several labels
 		q.corrupt = map[int]byte{}
@@ -311,6 +323,18 @@ func c16Child(c *Ctx) error {
 				}
 			}
 		}
+		// constant-pattern labels (all-zero, all-ones, 0x80 00.. is covered by flips) and one
+		// label copied over another: on every returned output label and every garbler input label
+		for _, rg := range regions {
+			for i := 0; i < rg.labels; i++ {
+				for _, v := range []byte{0x00, 0xff, 0x01} {
+					faults = append(faults, fault{dir: rg.dir, off: rg.base + 16*i, kind: "set16", mask: v, must: true})
+				}
+				for j := 0; j < i; j++ {
+					faults = append(faults, fault{dir: rg.dir, off: rg.base + 16*i, off2: rg.base + 16*j, kind: "dup16", must: true})
+				}
+			}
+		}
 		// always include all positions of the returned output labels and of the result message
 		step := 1
 		if len(faults) > per {
@@ -529,6 +553,14 @@ func c16StreamChild(c *Ctx, w *bufio.Writer, startAt int) error {
 	for _, cnt := range []int{32, 64} {
 		for off := tail; off+cnt <= le; off += 16 {
 			faults = append(faults, fault{dir: "e2g", off: off, kind: "burstff", mask: 0xff, count: cnt})
+		}
+	}
+	for i := 0; i < no; i++ {
+		for _, v := range []byte{0x00, 0xff} {
+			faults = append(faults, fault{dir: "e2g", off: tail + 16*i, kind: "set16", mask: v})
+		}
+		if i > 0 {
+			faults = append(faults, fault{dir: "e2g", off: tail + 16*i, off2: tail + 16*(i-1), kind: "dup16"})
 		}
 	}
 	for fi, f := range faults {
